@@ -49,6 +49,17 @@ CLAIMED = {
         design="DESIGN.md 5 C11"),
 }
 
+CLAIMED["C15"] = dict(
+    text="Coq theorems over the model of socks5_client.rs: for every credential/value/destination input and EVERY server byte string "
+         "each message written parses under an independent RFC 1928/1929/extended-auth grammar to the intended fields, over-long "
+         "fields fail unwritten, the tunnel proceeds only after an offered method and success replies, UDP header wrap/unwrap round "
+         "trip and totality, credentials split at the first colon (with a proven base64 round trip); tied by constants/flags from the "
+         "translator and a differential run of the real socks5_client::connect over an in-memory duplex against a scripted server "
+         "(all selections, statuses, reply codes, truncation at every byte, segmentations), with the grammar as oracle on the real bytes",
+    note="trusted: Coq kernel, Model/Socks5.v, Spec/Rfc1928.v, Lib/Base64.v + Lib/Utf8.v (models of the base64 crate / from_utf8), "
+         "translator, extraction + driver, harness doors verif::socks",
+    design="DESIGN.md 5 C15")
+
 PENDING_REASON = "check under construction in this round (designed in DESIGN.md, not yet wired into ./check)"
 
 
